@@ -527,13 +527,16 @@ func (r *rig) startSender() {
 	bc.TxRecoverer = func(p sts.Payload) (int, error) { return r.txRecover(gen, realR, p) }
 	bc.Validator = func(f []sts.Pollable) ([]sts.Polled, error) { return r.validate(gen, realV, f) }
 	bc.Recoverer = func() ([]*sts.Partial, error) { return r.partials(gen, realP) }
-	r.stop = make(chan bool, 2)
+	stop := make(chan bool, 2)
 	done := make(chan bool, 1)
+	r.mu.Lock()
+	r.stop = stop
 	r.finished = false
 	if r.doneCh == nil {
 		r.doneCh = make(chan int, 16)
 	}
-	go app.broker.Start(r.stop, done)
+	r.mu.Unlock()
+	go app.broker.Start(stop, done)
 	go func() { // one watcher per incarnation; only the current incarnation's exit counts
 		<-done
 		r.mu.Lock()
@@ -546,13 +549,16 @@ func (r *rig) startSender() {
 		}
 	}()
 	if r.conf.OneShot {
-		r.stop <- true // main: stopClients(graceful) right after start when not running as a daemon
+		stop <- true // main: stopClients(graceful) right after start when not running as a daemon
 	}
 }
 
 // senderGone ends the calling goroutine if it belongs to a dead sender incarnation.
 func (r *rig) senderGone(gen int) {
-	if gen != r.gen {
+	r.mu.Lock()
+	cur := r.gen
+	r.mu.Unlock()
+	if gen != cur {
 		runtime.Goexit()
 	}
 }
@@ -611,7 +617,9 @@ func (r *rig) requestStop(graceful bool) {
 	r.stopAt = r.now()
 	r.mu.Unlock()
 	r.note("stop requested (%s)", r.stopped)
+	r.mu.Lock()
 	stop := r.stop
+	r.mu.Unlock()
 	go func() { stop <- graceful }()
 }
 
@@ -1015,7 +1023,10 @@ func (r *rig) run(goal func(r *rig) bool) {
 				return
 			}
 		}
-		if r.now()-r.lastDev > r.conf.Horizon {
+		r.mu.Lock()
+		quiet := r.now() - r.lastDev
+		r.mu.Unlock()
+		if quiet > r.conf.Horizon {
 			return
 		}
 	}
@@ -1064,8 +1075,8 @@ func (r *rig) close() {
 	if r.cli != nil {
 		r.cli.destroy()
 	}
-	r.gen = -1 // everything that is left of any sender incarnation ends at its next action
 	r.mu.Lock()
+	r.gen = -1 // everything that is left of any sender incarnation ends at its next action
 	stages := r.stages
 	r.mu.Unlock()
 	for _, st := range stages {
